@@ -32,7 +32,7 @@ func Specs() map[string]*Spec {
 	m["C18"] = &Spec{
 		ID: "C18", Level: "exploration", Main: "inst", Variants: []string{"inst", "plain"}, Block: 4,
 		RequireProbes: []string{"exhaustive_prefix_units", "sequences", "tasks_spawned", "outcome_ok", "outcome_error", "entry_file", "entry_expr", "entry_globals", "entry_compile", "kind_compile-unnamed", "kind_quoted-attr-error",
-			"kind_quoted-attr-trailing", "kind_globals-error", "kind_trailing", "kind_trailing-lexerror", "kind_plural-error", "kind_runtime-error-path", "native_sequences"},
+			"kind_quoted-attr-trailing", "kind_globals-error", "kind_trailing", "kind_trailing-lexerror", "kind_plural-error", "kind_runtime-error-path", "kind_early-error-large", "native_sequences"},
 		Post: func(e *Env, s *Spec, agg *Agg, cov map[string]interface{}) error {
 			// cross-check with the real runtime: the un-instrumented build parses the same sequences and
 			// the goroutine dump is searched for scanner frames once it has settled
@@ -133,7 +133,7 @@ func init() {
 				"randomInt and keys() are excluded from generated bundles",
 			},
 			Components: map[string][]string{"real": {"all of robfig/soy: unmodified build and instrumented build of the current working tree"}, "stub": {"io.Writer (fault-injecting)", "soymsg.Bundle (built from the compiled messages)", "vfail function / directive (panics on schedule)"}, "replaced": {}},
-			RequireProbes: []string{"renders_compared_with_output", "completed_js", "completed_genfile", "completed_recompile", "completed_evalexpr", "histories_compared_with_a_fresh_process", "op_render", "op_render-reused", "op_render-writerfault", "op_render-panic", "op_render-illtyped", "op_js", "op_genfile", "op_recompile", "fault_fired_writer", "fault_fired_panic_error", "fault_fired_panic_runtime-error",
+			RequireProbes: []string{"renders_compared_with_output", "completed_js", "completed_genfile", "completed_recompile", "completed_evalexpr", "histories_compared_with_a_fresh_process", "op_render-tofu", "op_render-nils", "op_render-tofu-nils", "op_render", "op_render-reused", "op_render-writerfault", "op_render-panic", "op_render-illtyped", "op_js", "op_genfile", "op_recompile", "fault_fired_writer", "fault_fired_panic_error", "fault_fired_panic_runtime-error",
 				"histories_with_obligatory_directives", "failed_renders"},
 		}
 	})
